@@ -226,6 +226,42 @@ theorem not_mem_stripComment {c : Char} (l : List Char) (h : c ∉ l) : c ∉ st
     · simp only [stripComment, hd, if_false, List.mem_cons, not_or]
       exact ⟨fun e => h (e ▸ List.mem_cons_self ..), ih (fun m => h (List.mem_cons_of_mem _ m))⟩
 
+/-! ### the code part of a line (what must be ASCII) -/
+
+theorem codePart_mem : ∀ (l : List Char) (k : Nat), ∀ c ∈ codePart k l, c ∈ l
+  | [], k, c, h => by cases k <;> simp [codePart] at h
+  | d :: ds, k + 1, c, h => by
+    simp only [codePart, List.mem_cons] at h ⊢
+    rcases h with h | h
+    · exact .inl h
+    · exact .inr (codePart_mem ds k c h)
+  | d :: ds, 0, c, h => by
+    simp only [codePart] at h
+    split at h
+    · simp at h
+    · simp only [List.mem_cons] at h ⊢
+      rcases h with h | h
+      · exact .inl h
+      · exact .inr (codePart_mem ds _ c h)
+
+/-- an ASCII line has an ASCII code part -/
+theorem codePart_ascii {l : List Char} (h : l.all isAsciiC = true) (k : Nat) :
+    (codePart k l).all isAsciiC = true := by
+  rw [List.all_eq_true] at h ⊢
+  exact fun c hc => h c (codePart_mem l k c hc)
+
+/-- without an apostrophe in front of the comment, the code part is the line minus its comment -/
+theorem codePart_eq_strip (l : List Char) (h : '\'' ∉ stripComment l) : codePart 0 l = stripComment l := by
+  induction l with
+  | nil => rfl
+  | cons c cs ih =>
+    by_cases hh : c = '#'
+    · simp [codePart, stripComment, hh]
+    · have hs : stripComment (c :: cs) = c :: stripComment cs := by simp [stripComment, hh]
+      rw [hs] at h ⊢
+      have hq : c ≠ '\'' := fun e => h (e ▸ List.mem_cons_self ..)
+      simp only [codePart, hh, if_false, hq, ih (fun m => h (List.mem_cons_of_mem _ m))]
+
 /-! ### source-level operands -/
 
 /-- a source-level operand / mnemonic: not empty, free of separators, parentheses, `#` and quotes
